@@ -72,6 +72,9 @@ CTX = {
     "para": ("%s\n", "<p>%s</p>\n", False),
     "head": ("# %s\n", "<h1>%s</h1>\n", False),
     "em": ("*x%sx*\n", "<p><em>x%sx</em></p>\n", False),
+    # emphasis-like content without padding: the escaped text touches the closing delimiter run
+    "strong": ("**%s**\n", "<p><strong>%s</strong></p>\n", False),
+    "strike": ("~~%s~~\n", "<p><s>%s</s></p>\n", False),
     "link": ("[%s](/u)\n", '<p><a href="/u">%s</a></p>\n', False),
     "alt": ("![%s](/u)\n", '<p><img src="/u" alt="%s"%s></p>\n', False),
     "title": ('[x](/u "%s")\n', '<p><a href="/u" title="%s">x</a></p>\n', True),
